@@ -387,6 +387,29 @@ def soak_histories():
               ["delete", S1 + ["sources", "src"], "sources", "name", "n%d" % perm[2]],
               ["delete", S1 + ["sources", "src"], "sources", "name", "n%d" % perm[1]]]
     out.append(h)
+    # refused calls in the middle: the last feature / reference / member goes, a call with an array of ANOTHER block is
+    # refused, a valid call follows; three times over, no reopen
+    NB = ["blocks", "n1"]
+    h = [["create", [], "blocks", "n1"],
+         ["create", NB, "data_arrays", "n1", [[1, 2], [3, 4]], "int16"],
+         ["create", NB, "data_arrays", "sig", [[1, 2], [3, 4]], "int16"],
+         ["create", B, "multi_tags", "n1", "sig"]]
+    M1 = B + ["multi_tags", "n1"]
+    for cyc in range(3):
+        h += [["delete", T, "features", "idx", 0],
+              ["create_feature", T, NB + ["data_arrays", "sig"], "Tagged"],           # refused
+              ["create_feature", T, arr("sig"), "Indexed"],
+              ["unlink", T, "references", "idx", 0],
+              ["link", T, "references", NB + ["data_arrays", "sig"]],                 # refused
+              ["link", T, "references", arr("sig")],
+              ["unlink", G, "data_arrays", "idx", 0],
+              ["link", G, "data_arrays", NB + ["data_arrays", "n1"]],                 # refused
+              ["link", G, "data_arrays", arr("sig")],
+              ["create_feature", M1, NB + ["data_arrays", "n1"], "Untagged"],         # refused, the multi tag never had one
+              ["create_feature", M1, arr("sig"), "Untagged"],
+              ["delete", M1, "features", "idx", 0],
+              ["set", arr("sig"), "label", "round%d" % cyc]]
+    out.append(h)
     return out
 
 
